@@ -28,6 +28,10 @@ ASSUMPTIONS = [
     "calls made for meta inference (block_info not a dict / zero-size meta inputs) are not counted: dask documents them",
     "map_blocks without chunks= takes the block structure of the first input with the most blocks per dim (documented)",
     "integer data, so einsum/vectorize references are exact",
+    "blockwise: an index repeated inside one input ('ii') always carries the same chunks on both of its axes; different "
+    "chunks there hit the unify_chunks shortcut defect that is listed (with a proposed fix) under C31 "
+    "`einsum-repeated-index-diff-chunks` -- same root cause, not re-listed here",
+    "explicit zero-size chunks are not generated (C19/C24 own that stratum)",
 ]
 TECHNIQUE = "recording user functions under the synchronous scheduler, compared with reference slicing; differential vs NumPy"
 
@@ -386,7 +390,7 @@ def bw_random(draw):
     names = sorted(letters)
     repeated = draw(st.integers(0, 5)) == 0
     inputs = []
-    for _ in range(draw(st.integers(1, 3))):
+    for _ in range(draw(st.sampled_from([1, 2, 2, 2, 3, 3]))):
         ind = draw(st.lists(st.sampled_from(names), min_size=1, max_size=3, unique=not repeated))
         inputs.append({"ind": "".join(ind), "seed": draw(st.integers(0, 999)), "bcast": [False] * len(ind)})
     used = sorted({l for i in inputs for l in i["ind"]})
@@ -395,7 +399,7 @@ def bw_random(draw):
     out = list(out) + sorted({l for i in inputs for l in i["ind"] if i["ind"].count(l) > 1} - set(out))
     spec = {"letters": letters, "inputs": inputs, "out": "".join(out), "concatenate": True}
     contracted = [l for l in used if l not in out]
-    mode = draw(st.sampled_from(["plain", "plain", "lists", "unaligned", "bcast"]))
+    mode = draw(st.sampled_from(["plain", "lists", "lists", "unaligned", "unaligned", "bcast", "bcast", "bcast"]))
     if mode == "lists" and len(contracted) == 1 and not repeated:
         spec["concatenate"] = None
     elif mode == "unaligned" and not repeated:
